@@ -383,11 +383,11 @@ def rule_SIB1(ctx):
                             diff = [(a_, b_) for a_, b_ in zip(lf_, lg_) if a_ != b_]
                             if len(diff) == 1:
                                 kind = 'the same statement with %s in one sibling and %s in the other' % diff[0]
-                        elif lf_ == lg_ and xf[4] == xg[4] and \
+                        elif sorted(lf_) == sorted(lg_) and xf[4] == xg[4] and \
                                 sorted(re.findall(r'[-+*/]', shf)) == sorted(re.findall(r'[-+*/]', shg)) and \
                                 sorted(re.findall(r'[a-zA-Z_]\w*\(', shf)) == sorted(re.findall(r'[a-zA-Z_]\w*\(', shg)):
-                            # (iii) the same operands in the same order under the same operators, grouped differently
-                            kind = 'the same operands and operators grouped differently (%s / %s)' % (only_f[0][:60], only_g[0][:60])
+                            # (iii) the same operands under the same operators and calls, arranged differently
+                            kind = 'the same operands and operators arranged differently (%s / %s)' % (only_f[0][:60], only_g[0][:60])
                     if kind is None:
                         nrewrites += 1
                         res.ob(True, {'function': nm, 'name': L, 'not_judged': 'the siblings assign it through differently '
